@@ -20,7 +20,7 @@ func init() {
 		Level: "model_checking",
 		Rule: "product: configuration (4 pause-flag states x attester set {as attested, rotated away, rotated back}, reached by real transactions after the originals were emitted) x original " +
 			"{own user message, someone else's, foreign-domain with sender=submitter, bad attestation, genuine own deposit, someone else's deposit, user-sent burn-message imitation naming the submitter, a replacement of a replacement (message and deposit)} " +
-			"x {replace-message, replace-deposit} x new body / mint recipient / caller in {zero32, nonzero32, empty, 31, 33, 64, 96 bytes, oversized body} x 4 submitters (the sender, another user, and two shorter accounts whose address is a prefix of the sender's; the latter with a reduced shape set); success only under the stated conditions, " +
+			"x {replace-message, replace-deposit} x new body / mint recipient / caller in {zero32, nonzero32, empty, 31, 33, 64, 96 bytes, oversized body; thorough: also a single 0xFF byte at each of the 32 offsets and 15 more body lengths up to the limit} x 4 submitters (the sender, another user, and two shorter accounts whose address is a prefix of the sender's; the latter with a reduced shape set); success only under the stated conditions, " +
 			"replacement reference-decoded and compared with the original field by field, raw store/ledger/counter diff must be empty; distinct_nontrivial = distinct (original kind, transaction, condition vector, outcome)",
 		Assumptions: []string{"success ONLY-IF the stated conditions; the canonical well-formed case must succeed so the check is not vacuous; other accepted-by-conditions shapes (e.g. empty new caller) are EITHER"},
 		Jobs:        c09Jobs,
@@ -149,6 +149,28 @@ func c09Run(r *Run, burnPaused, sendPaused bool, attCfg string) {
 		name string
 		b    []byte
 	}{{"empty", nil}, {"1B", []byte{1}}, {"burn-like", imitation}, {"8001B", make([]byte, 8001)}}
+
+	if r.Tier == "thorough" {
+		// a single 0xFF byte at every offset of the new 32-byte field; more new-body lengths
+		for i := 0; i < 32; i++ {
+			p := make([]byte, 32)
+			p[i] = 0xFF
+			shapes = append(shapes, struct {
+				name string
+				b    []byte
+			}{fmt.Sprintf("ff@%d", i), p})
+		}
+		for _, n := range []int{2, 31, 32, 33, 115, 116, 117, 131, 133, 248, 255, 256, 4096, 7999, 8000} {
+			b := make([]byte, n)
+			for i := range b {
+				b[i] = byte(i*5 + n)
+			}
+			newBodies = append(newBodies, struct {
+				name string
+				b    []byte
+			}{fmt.Sprintf("%dB", n), b})
+		}
+	}
 
 	run := func(a Action, origName string) {
 		w.Load(base)
